@@ -371,7 +371,11 @@ func (e *CoreExtension) filterSplit(value interface{}, args ...interface{}) (int
 		// Convert delimiter string to a regex character class
 		// QuoteMeta leaves the dash alone, which inside a character class would form a range
 		pattern := "[" + strings.ReplaceAll(regexp.QuoteMeta(delimiter), "-", `\-`) + "]"
-		re := regexp.MustCompile(pattern)
+		re, err := regexp.Compile(pattern)
+		if err != nil {
+			// e.g. a delimiter that is not valid UTF-8
+			return nil, fmt.Errorf("split filter: invalid delimiter %q: %v", delimiter, err)
+		}
 
 		if limit > 0 {
 			// Manual split with limit
